@@ -42,7 +42,10 @@ static struct {
     const void *p;
     size_t sz;
     int kind;
+    const void *site; /* return address of the allocating call (replay diagnostics only) */
+    uint64_t step;
 } ledger[LEDGER_N];
+static const void *ledger_site;
 static long ledger_live, ledger_bytes;
 static unsigned lh(const void *p)
 {
@@ -72,6 +75,9 @@ static void ledger_add(const void *p, size_t sz, int kind)
     ledger[h].p = p;
     ledger[h].sz = sz;
     ledger[h].kind = kind;
+    ledger[h].site = ledger_site;
+    ledger[h].step = G.steps;
+    ledger_site = 0;
     ledger_live++;
     ledger_bytes += (long)sz;
 }
@@ -102,11 +108,14 @@ long sim_ledger_live_bytes(void)
     return ledger_bytes;
 }
 void sim_quarantine_check(void);
+void sim_ledger_dump(int max);
 void sim_ledger_check_empty(const char *when)
 {
     sim_quarantine_check();
     if (ledger_live == 0)
         return;
+    if (getenv("WL_DEBUG"))
+        sim_ledger_dump(100);
     char buf[600];
     int n = 0, shown = 0;
     static const char *kn[] = { "", "", "malloc", "mmap", "pthread-obj" };
@@ -131,7 +140,7 @@ void sim_ledger_dump(int max)
     int shown = 0;
     for (unsigned h = 0; h < LEDGER_N && shown < max; h++)
         if (ledger[h].kind > LK_TOMB) {
-            fprintf(stderr, "ledger: %p %zu kind %d\n", ledger[h].p, ledger[h].sz, ledger[h].kind);
+            fprintf(stderr, "ledger: %p %zu kind %d allocated at step %lu by %p\n", ledger[h].p, ledger[h].sz, ledger[h].kind, (unsigned long)ledger[h].step, ledger[h].site);
             shown++;
         }
 }
@@ -219,6 +228,7 @@ void sim_quarantine_check(void)
 
 void *abtv_malloc(size_t sz)
 {
+    ledger_site = __builtin_return_address(0);
     if (alloc_should_fail(SIM_RES_MALLOC)) {
         errno = ENOMEM;
         return NULL;
@@ -233,6 +243,7 @@ void *abtv_malloc(size_t sz)
 }
 void *abtv_calloc(size_t n, size_t sz)
 {
+    ledger_site = __builtin_return_address(0);
     if (alloc_should_fail(SIM_RES_MALLOC)) {
         errno = ENOMEM;
         return NULL;
@@ -276,6 +287,7 @@ void *abtv_realloc(void *p, size_t sz)
 }
 int abtv_posix_memalign(void **pp, size_t align, size_t sz)
 {
+    ledger_site = __builtin_return_address(0);
     if (alloc_should_fail(SIM_RES_MALLOC))
         return ENOMEM;
     int r = posix_memalign(pp, align, sz ? sz : 1);
